@@ -41,14 +41,14 @@ func runC12(c *Ctx) {
 		}
 	}
 	keyArgs := map[string][]int{ // callee → indexes (into Args incl. receiver for static calls) of key-like arguments
-		"(*db/diffdb.cacheDB).get":         {1},
-		"(*db/diffdb.cacheDB).set":         {1},
-		"(*db/diffdb.cacheDB).del":         {1},
-		"(*db/diffdb.cacheDB).add":         {1},
-		"(*db/diffdb.cacheDB).cache":       {1},
-		"(*db/diffdb.cacheDB).existAny":    {1},
-		"(*db/diffdb.cacheDB).withPrefix":  {1},
-		"(*db/diffdb.cacheDB).dataBetween": {1, 2},
+		"(*db/diffdb.cacheDB).get":                    {1},
+		"(*db/diffdb.cacheDB).set":                    {1},
+		"(*db/diffdb.cacheDB).del":                    {1},
+		"(*db/diffdb.cacheDB).add":                    {1},
+		"(*db/diffdb.cacheDB).cache":                  {1},
+		"(*db/diffdb.cacheDB).existAny":               {1},
+		"(*db/diffdb.cacheDB).withPrefix":             {1},
+		"(*db/diffdb.cacheDB).dataBetween":            {1, 2},
 		"iface:db/diffdb.DatabaseReader.Get":          {0},
 		"iface:db/diffdb.DatabaseReader.Iterate":      {0},
 		"iface:db/diffdb.DatabaseReader.IterateRange": {0, 1},
@@ -203,6 +203,10 @@ func runC12(c *Ctx) {
 
 	// ---- R4 sentinel preservation
 	checkSentinelProducers(c, "C12.R4 sentinel-preserved", commit)
+
+	// ---- R7 key buffers are not shared between views (a prefix view's prefix and every
+	// prefixed key are built in fresh memory)
+	checkFreshKeyBuffers(c, "C12.R7 key-buffer-fresh", []string{"pkg/db"})
 
 	// ---- R5 merge
 	{
